@@ -101,6 +101,19 @@ def gen_plan(seed, tier):
     seen = set(); out = []
     for f in faults:
         if f['at'] not in seen: seen.add(f['at']); out.append(f)
+    # selections by a list of positions or by a boolean mask (one flag per record; python list or numpy array): m[sel] holds
+    # exactly the selected records, in the order given (numpy's indexing rules, which Monitor.__getitem__ documents by example)
+    if not vec:
+        r2 = sub_rng(seed, 'plan.c20.select')
+        ops2 = []
+        for o in ops:
+            ops2.append(o)
+            if o['op'] == 'call' and r2.random() < 0.1:
+                how = r2.choice(['idx', 'idx', 'mask', 'mask', 'npmask', 'npidx'])
+                ops2.append({'op': 'select', 'slot': o['slot'], 'to': nxt, 'how': how,
+                             'sel': [r2.randrange(64) for _ in range(r2.randint(1, 5))] if 'idx' in how else [r2.random() < 0.5 for _ in range(24)]})
+                nxt += 1
+        ops = ops2
     return {'property': ID, 'seed': seed, 'tier': tier, 'dim': dim, 'ops': ops, 'faults': out}
 
 
@@ -319,6 +332,29 @@ def _run(plan, run, violate, stats):
                 reuse_bufs[op['to']] = [0.0] * plan['dim']
                 unchanged(before, mons[s], violate, when, s)
                 stats['concats'] += 1
+            elif t == 'select':
+                s = op['slot']
+                if s not in mons or not len(refs[s].recs) or refs[s].lossy: continue
+                r = refs[s]; n = len(r.recs)
+                if 'idx' in op['how']:
+                    pos = [(v % (2 * n)) - n for v in op['sel']]          # positions in -n .. n-1
+                    sel = pos
+                else:
+                    flags = (list(op['sel']) * (n // len(op['sel']) + 1))[:n]
+                    pos = [i for i, f_ in enumerate(flags) if f_]
+                    sel = flags
+                if op['how'].startswith('np'): sel = numpy.array(sel)
+                before = snapshot(mons[s])
+                try:
+                    m2 = mons[s][sel]
+                except Exception as e:
+                    violate('monitor_record_changed', '%s: slot %d m[%r] raised %r' % (when, s, sel, e), mon=r.kind); continue
+                mons[op['to']] = m2
+                r2 = Ref('Monitor' if not r.kind.startswith('Logging') else 'LoggingSlice', r.k); r2.lossy = False
+                r2.recs = [r.recs[i] for i in pos]; refs[op['to']] = r2
+                reuse_bufs[op['to']] = [0.0] * plan['dim']
+                unchanged(before, mons[s], violate, when, s)
+                stats['concats'] += 1; stats['selections'] = stats.get('selections', 0) + 1
             elif t in ('add', 'extend', 'prepend'):
                 a, b = op['a'], op['b']
                 if a not in mons or b not in mons: continue
